@@ -321,6 +321,9 @@ func runC12(t *testing.T, spec RunSpec) *RunResult {
 			}
 			allStartedAt := -1
 			cancelled := false
+			dupScanned := len(w.WireLog)
+			var dups []dupMsg
+			dupFired := map[string]bool{}
 			w.Propose = func() []netsim.Proposal {
 				ps := st.proposals()
 				// the overlapping call may only start once the first call of that node is running
@@ -365,6 +368,35 @@ func runC12(t *testing.T, spec RunSpec) *RunResult {
 				}
 				if adv != nil && st.allStarted() {
 					out = append(out, adv.Proposals()...)
+				}
+				if ph.Outsider && ph.CancelAt%3 == 0 {
+					// duplicated traffic: synchroniser messages of this phase are delivered again, up to three times each,
+					// from their own sender (a peer that re-sends, a transport that re-delivers after a reconnect)
+					for ; dupScanned < len(w.WireLog) && len(dups) < 60; dupScanned++ {
+						m := w.WireLog[dupScanned]
+						// (queries and confirmations only: a member's view is re-sent periodically and the latest one counts,
+						// so an old view delivered after a newer one is a matter of link order, not of duplication)
+						if m.Type == uint8(tss.MsgTypeSync) && m.Tag == "" && len(m.Data) > 0 && m.Data[0] != 1 && prng.Hash64(m.Data, []byte{byte(m.To)})%2 == 0 {
+							for k := 0; k < 3; k++ {
+								dups = append(dups, dupMsg{m, fmt.Sprintf("inj:dupsync:%d:%d", m.ID, k)})
+							}
+						}
+					}
+					n := 0
+					for i := range dups {
+						dm := dups[i]
+						if dupFired[dm.key] {
+							continue
+						}
+						out = append(out, netsim.Proposal{Key: dm.key, Weight: 0.5, Fire: func() {
+							dupFired[dm.key] = true
+							w.Faults["duplicate-sync-message"]++
+							w.Inject(dm.m.From, dm.m.To, dm.m.Type, dm.m.Topic, dm.m.Data, "dup-sync")
+						}})
+						if n++; n >= 4 {
+							break
+						}
+					}
 				}
 				return out
 			}
@@ -448,6 +480,9 @@ func runC12(t *testing.T, spec RunSpec) *RunResult {
 			failedPhase = all[len(all)-1].phase
 		}
 		res.Violations = append(res.Violations, panicViolations(w, "C12/panic")...)
+		if stuck := w.Stuck(); len(stuck) > 0 && len(res.Violations) == 0 {
+			res.Violations = append(res.Violations, netsim.Violation{Invariant: "C12/handler-blocked", Class: "C12/handler-blocked/" + mode, Detail: fmt.Sprintf("HandleMessage did not return for %v although the system is quiescent: late or duplicated traffic of a session must have no effect, and a dispatcher that is held up serves no other session either; history: %s", stuck[0], historySummary(cfg.Phases))})
+		}
 		if len(res.Violations) == 0 {
 			res.Violations = append(res.Violations, c12Handoffs(w, d, all, phaseStart, mode)...)
 			failedPhase = len(cfg.Phases) - 1
@@ -492,6 +527,11 @@ func runC12(t *testing.T, spec RunSpec) *RunResult {
 		fillResult(res, w, ss)
 	})
 	return res
+}
+
+type dupMsg struct {
+	m   *netsim.Msg
+	key string
 }
 
 func nodeOfKey(key string) uint16 {
